@@ -21,7 +21,7 @@ for pid in ids:
         evidence_file="/verif/evidence/%s.json" % pid,
         replay_cmd_template="./check %s --replay {path}" % pid,
         engine="harness",
-        level_claimed=dict(category=c.get("level", "exploration"), text=c["level_text"], design_ref=c.get("design_ref", "DESIGN.md §4 " + pid)),
+        level_claimed=dict(category=c.get("level", "exploration"), text=c["level_text"] + (" " + c["level_more"] if c.get("level_more") else ""), design_ref=c.get("design_ref", "DESIGN.md §4 " + pid)),
         level_note=c["level_note"],
         technique=c["technique"],
     ))
